@@ -52,3 +52,11 @@ pub open spec fn if_evs(i: If) -> Seq<Ev> decreases i {
   seq![Ev::ResolveExpr(i.cond.id), Ev::Begin, Ev::ResolveBlock(i.body.id), Ev::End]
     + (match i.else_ { None => Seq::<Ev>::empty(), Some(Else::Block(b)) => seq![Ev::Begin, Ev::ResolveBlock(b.id), Ev::End], Some(Else::If(n)) => if_evs(*n) })
 }
+pub struct Collection { pub items: Vec<Expr> }
+pub enum StringSegments { Token(int), Expr(Expr) }
+pub struct Interpolation { pub segments: Vec<StringSegments> }
+pub struct Channel { pub expr: Option<Expr> }
+/// the expressions among the first n segments of an interpolated string, in order
+pub open spec fn seg_evs(s: Seq<StringSegments>, n: int) -> Seq<Ev> decreases n {
+  if n <= 0 { Seq::<Ev>::empty() } else { seg_evs(s, n - 1) + (match s[n - 1] { StringSegments::Expr(e) => seq![Ev::ResolveExpr(e.id)], _ => Seq::<Ev>::empty() }) }
+}
